@@ -233,11 +233,11 @@ func repeatingFrame(s string) string {
 }
 
 // RunOne executes a single case in a fresh supervised subprocess.
-func RunOne(chk *Check, tier string, c Case, work string) (Result, string) {
+func RunOne(chk *Check, tier string, c Case, work string, raceSet ...bool) (Result, string) {
 	ch := make(chan event, 8)
 	var wg sync.WaitGroup
 	opts := WorkerOpts{ID: chk.ID, Tier: tier, Of: 1, One: &c, CaseMs: caseMs(chk, tier),
-		Dump: filepath.Join(work, "one.dump")}
+		Dump: filepath.Join(work, "one.dump"), RaceSet: len(raceSet) > 0 && raceSet[0]}
 	_, err := startWorker(chk, opts, filepath.Join(work, "one.err"), ch, &wg)
 	if err != nil {
 		return Result{V: OK}, "cannot start: " + err.Error()
@@ -463,16 +463,20 @@ func RunCheck(chk *Check, tier string, seed int64) int {
 				continue
 			}
 			// confirm in a fresh process
-			r2, note := RunOne(chk, tier, c, work)
+			r2, note := RunOne(chk, tier, c, work, ev.opts.RaceSet)
 			conf := 1
 			if r2.V == Viol {
 				conf = 2
-				r3, _ := RunOne(chk, tier, c, work)
+				r3, _ := RunOne(chk, tier, c, work, ev.opts.RaceSet)
 				if r3.V == Viol {
 					conf = 3
 				}
 			}
-			if conf >= 2 {
+			if class == "data-race" && conf < 2 {
+				// a report of the race detector is evidence in itself (it has no false positives); the
+				// sampled schedule need not repeat
+				report(c, class, info+"\n(not reproduced when the case was replayed alone: schedules are sampled)", 1, "")
+			} else if conf >= 2 {
 				report(c, class, info+"\n(confirmed in fresh worker: "+r2.Why+")", conf, "")
 			} else {
 				unconfirmed++
